@@ -719,6 +719,120 @@ theorem C05_ti_down_conditions_needed :
           | .error _ => []) = some [[("source_packages".toList, "bin".toList)]]) :=
   ⟨ex_chain_needed, ex_src_needed⟩
 
+/-! ### pre-productmd files (0.0): what each reader recovers, from ANY file
+
+No `TI.down` is claimed for 0.0: the layout loses facts (short name outside the family table, layered release and base product,
+variant name / type, every path kind but `packages` / `repository` / `identity`) and the readers are heuristics.  What CAN be
+stated without restating the code is stated per section, for every file (not only written ones; the hypotheses are facts about
+the options present): the result of each 0.0 reader in closed form.  The literal tables (family → name / short, RHEL 5 addons,
+RHEL 3 – 6 and Fedora path rules) are the harness's explicit mapping-table oracle (`general_mirror`, 142 literal cases) and
+the witness `C05_ti_upgrade_0_0_witness`; the `[general]` the CURRENT writer emits read through these lemmas is C17's subject
+(`C05_ti_00_tree`, `C05_ti_00_release`, `C05_ti_00_top_variant`, `C05_ti_00_general_variant`, `C05_ti_00_general_paths` are
+stated on exactly the options `General.serialize` writes: family, version, arch, timestamp, variant, packagedir, repository). -/
+
+/-- **0.0, tree**: arch and timestamp come from `[general]` (`int(float(timestamp))`); the platforms are the arch and the
+platform of every `images-*` section (`platforms00`; a section named after the arch would add its `platforms`) -/
+theorem C05_ti_00_tree (fo : FloatOracle) (d : Ini) (arch ts : Str) (n : Int)
+    (ha : Ini.get d sGeneral kArch = .ok arch) (hnos : (Ini.sections d).contains arch = false)
+    (ho : Ini.hasOption d sGeneral kTimestamp = true) (ht : Ini.get d sGeneral kTimestamp = .ok ts) (hn : fo.intOfFloatStr ts = .ok n)
+    (hv : validateClass "treeinfo.Tree" (treeObj ⟨arch, .int n, platforms00 arch (Ini.sections d)⟩) = .ok ()) :
+    TI.Legacy.deTreeL fo true d = .ok ⟨arch, .int n, platforms00 arch (Ini.sections d)⟩ :=
+  deTreeL_00 fo d arch ts n ha hnos ho ht hn hv
+
+/-- … and -1 without a `timestamp` -/
+theorem C05_ti_00_tree_no_timestamp (fo : FloatOracle) (d : Ini) (arch : Str)
+    (ha : Ini.get d sGeneral kArch = .ok arch) (hnos : (Ini.sections d).contains arch = false)
+    (ho : Ini.hasOption d sGeneral kTimestamp = false)
+    (hv : validateClass "treeinfo.Tree" (treeObj ⟨arch, .int (-1), platforms00 arch (Ini.sections d)⟩) = .ok ()) :
+    TI.Legacy.deTreeL fo true d = .ok ⟨arch, .int (-1), platforms00 arch (Ini.sections d)⟩ :=
+  deTreeL_00_no_timestamp fo d arch ha hnos ho hv
+
+/-- **0.0, release**: name and short name by the family table (`releaseShort00`: the literal table of
+`Release.deserialize_0_0`; outside it the family itself and the EMPTY short name: `hplain`), the version by `version00` (the
+last dash/underscore-separated part that looks like a version), never layered -/
+theorem C05_ti_00_release (d : Ini) (family version v' : Str)
+    (hf : Ini.get d sGeneral TI.Legacy.kFamilyS = .ok family) (hver : Ini.get d sGeneral kVersion = .ok version)
+    (hv' : TI.Legacy.version00 version = .ok v')
+    (hv : validateClass "treeinfo.Release"
+      (releaseObj ⟨(TI.Legacy.releaseShort00 family).1, (TI.Legacy.releaseShort00 family).2, v'⟩ false) = .ok ()) :
+    TI.Legacy.deReleaseL .v00 d = .ok (⟨(TI.Legacy.releaseShort00 family).1, (TI.Legacy.releaseShort00 family).2, v'⟩, false)
+    ∧ (TI.Legacy.releaseShort00 family = (family, []) → TI.Legacy.deReleaseL .v00 d = .ok (⟨family, [], v'⟩, false)) := by
+  refine ⟨deReleaseL_00 d family version v' hf hver hv' hv, fun hplain => ?_⟩
+  rw [hplain] at hv
+  exact deReleaseL_00_plain d family version v' hf hver hv' hplain hv
+
+/-- **0.0, media**: `discnum` / `totaldiscs` of `[general]`; a missing disc number is 1, a missing total is the disc number -/
+theorem C05_ti_00_media (d : Ini) (a b : Option Int)
+    (hr : (match Ini.hasOption d sGeneral kDiscnum, Ini.hasOption d sGeneral kTotaldiscs with
+      | false, false => a = none ∧ b = none
+      | true, false => ∃ x, (Ini.get d sGeneral kDiscnum).bind Str.pyInt = .ok x ∧ a = some x ∧ b = some x
+      | false, true => ∃ y, (Ini.get d sGeneral kTotaldiscs).bind Str.pyInt = .ok y ∧ a = some 1 ∧ b = some y
+      | true, true => ∃ x y, (Ini.get d sGeneral kDiscnum).bind Str.pyInt = .ok x ∧ (Ini.get d sGeneral kTotaldiscs).bind Str.pyInt = .ok y
+          ∧ a = some x ∧ b = some y))
+    (hv : validateClass "treeinfo.Media" (mediaObj a b) = .ok ()) :
+    TI.Legacy.deMediaL true d = .ok (a, b) :=
+  deMediaL_00 d a b hr hv
+
+/-- **0.0, images / stage2 / checksums**: with relative paths the 0.0 readers ARE the current ones (C04); an absolute path is
+cut after its first `/os/`, else loses its leading slashes (`fixPath`) -/
+theorem C05_ti_00_relative_paths (d : Ini) (tree : Tree)
+    (himg : ∀ s ∈ Ini.sections d, isImg s = true → ∀ its, Ini.items d s = .ok its → ∀ kv ∈ its, relative kv.2 = true)
+    (hm : ∀ p, Ini.get d sStage2 kMainimage = .ok p → relative p = true)
+    (hi : ∀ p, Ini.get d sStage2 kInstimage = .ok p → relative p = true)
+    (hcs : ∀ its, Ini.items d sChecksums = .ok its → ∀ kv ∈ its, relative kv.1 = true) :
+    TI.Legacy.deImagesL true d tree = deImages d tree ∧ TI.Legacy.deStage2L true d = deStage2 d
+    ∧ TI.Legacy.deChecksumsL true d = deChecksums d :=
+  ⟨deImagesL_00_relative d tree himg, deStage2L_00_relative d hm hi, deChecksumsL_00_relative d hcs⟩
+
+/-- **0.0, top level**: a non-empty `variant` in `[general]` names the one top-level variant -/
+theorem C05_ti_00_top_variant (c : TI.Legacy.VCtx) (d : Ini) (v : Str) (ho : Ini.hasOption d sGeneral tVariant = true)
+    (hg : Ini.get d sGeneral tVariant = .ok v) (hne : v ≠ []) : TI.Legacy.topIds00 c d = .ok [v] :=
+  topIds00_variant c d v ho hg hne
+
+/-- **0.0, a variant known from `[general]` only** (none of `addon-UID`, `addon-ID`, `variant-UID`, `variant-ID` is a section,
+no `addons` in `[general]`, not RHEL 5): id = the last dash-separated part of the UID, name = id, type `variant` (`addon` when
+read as a child), no children — name and type of the written variant are NOT recovered -/
+theorem C05_ti_00_general_variant (S : TI.Legacy.Sels) (hS1 : S.variant = .v00) (hS2 : S.addonFallback = false)
+    (c : TI.Legacy.VCtx) (d : Ini) (f : Nat) (addon : Bool) (uid : Str)
+    (hne : uid ≠ []) (h0 : d.lookup Ini.DEFAULT = none)
+    (hnosec : ∀ s ∈ [pAddon ++ uid, pAddon ++ (Str.splitOn '-' uid).getLastD [], pVariant ++ uid,
+      pVariant ++ (Str.splitOn '-' uid).getLastD []], d.lookup s = none)
+    (hnoadd : Ini.hasOption d sGeneral kAddons = false) (hnot5 : TI.Legacy.isRhelMajor c ["5".toList] = false) :
+    TI.Legacy.readVariant S c d (f + 1) addon uid =
+      (TI.Legacy.dePathsL S.paths c d ((Str.splitOn '-' uid).getLastD []) uid (if addon then tAddon else tVariant)).map fun paths =>
+        .mk [] ((Str.splitOn '-' uid).getLastD []) uid ((Str.splitOn '-' uid).getLastD []) (if addon then tAddon else tVariant) paths [] :=
+  readVariant_00_general S hS1 hS2 c d f addon uid hne h0 hnosec hnoadd hnot5
+
+/-- **0.0, its paths**: for clean values (no trailing slash, not empty, not `.`, the repository not ending in `/repodata`),
+outside RHEL and source trees, `packagedir` of `[general]` is the `packages` path and `repository` the repository; no other
+path kind is recovered.  (What differs inside RHEL 3 – 6, for Fedora with `.`, with `/repodata` and for missing options is the
+literal rule list of `VariantPaths.deserialize_0_0`: the harness's table oracle.) -/
+theorem C05_ti_00_general_paths (c : TI.Legacy.VCtx) (d : Ini) (id uid type r p : Str) (h0 : d.lookup Ini.DEFAULT = none)
+    (hnosec : ∀ s ∈ [pAddon ++ uid, pAddon ++ id, pVariant ++ uid, pVariant ++ id], d.lookup s = none)
+    (hr : Ini.hasOption d sGeneral kRepository = true) (gr : Ini.get d sGeneral kRepository = .ok r)
+    (hnp : Ini.hasOption d sGeneral TI.Legacy.kPackages = false)
+    (hp : Ini.hasOption d sGeneral kPackagedir = true) (gp : Ini.get d sGeneral kPackagedir = .ok p)
+    (hid : Ini.hasOption d sGeneral TI.Legacy.kIdentity = false)
+    (r1 : TI.Legacy.rstripSlash r = r) (r2 : r ≠ []) (r3 : r ≠ ".".toList) (r4 : Str.endsWith r "/repodata".toList = false)
+    (p1 : TI.Legacy.rstripSlash p = p) (p2 : p ≠ []) (p3 : p ≠ ".".toList)
+    (hrhel : (c.relShort == TI.Legacy.sRHEL) = false) (hsrc : (c.arch == TI.Legacy.sSrc) = false) :
+    TI.Legacy.dePathsL .v00 c d id uid type = .ok [("packages".toList, p), ("repository".toList, r)] :=
+  dePathsL_00_general c d id uid type r p h0 hnosec hr gr hnp hp gp hid r1 r2 r3 r4 p1 p2 p3 hrhel hsrc
+
+/-- the hypotheses are satisfiable and the lemmas fit together: a `[general]`-only file (plain family, two image sections,
+stage2, checksums, a disc number) — every hypothesis holds of it (`ex00_hyps`) and the whole reader returns exactly the facts
+named above -/
+theorem C05_ti_00_nonvacuous :
+    TI.Legacy.deserialize C04_fo ex00 = .ok
+      { headerVersion := currentVersion, release := ⟨"Foo Linux".toList, [], "7.2".toList⟩, isLayered := false, baseProduct := none,
+        tree := ⟨"x86_64".toList, .int 1417653911, ["x86_64".toList, "xen".toList]⟩,
+        variants := [.mk "Everything".toList "Everything".toList "Everything".toList "Everything".toList "variant".toList
+          [("packages".toList, "Packages".toList), ("repository".toList, "repo".toList)] []],
+        checksums := [("images/boot.iso".toList, "sha256".toList, "ab".toList)],
+        images := [("x86_64".toList, [("kernel".toList, "images/vmlinuz".toList)]), ("xen".toList, [("kernel".toList, "images/xen/vmlinuz".toList)])],
+        mainimage := some "LiveOS/squashfs.img".toList, instimage := none, discnum := some 2, totaldiscs := some 2 } :=
+  ex00_loaded
+
 /-- **faithful and idempotent on a 0.3 witness** (`Proofs/C05WitnessTI.lean`: `wTI03`, evaluated in the kernel): `[product]`
 becomes the release, the child listed under `variants` is found in its `addon-` section, the `src` tree's paths become
 `source_packages` / `source_repository`; the written file is parsed, re-read and written again to the same document -/
